@@ -336,12 +336,36 @@ fn leaves_of(f: &F) -> Vec<F> {
     }
 }
 
+/// pool and operation of the free-running probe: printed leaves and prefixes of two multi-segment
+/// filters, parsed to a tree rendering or an error text
+fn parser_probe_pool() -> Vec<String> {
+    let mut texts: Vec<String> = core_leaves().iter().map(print_canonical).collect();
+    for t in ["equipRef->siteRef->dis == \"HQ\" and not a->b->c", "a->b->c >= 5kW or b->c == @r \"d\""] {
+        for k in (0..=t.len()).step_by(3) {
+            if t.is_char_boundary(k) {
+                texts.push(t[..k].to_string());
+            }
+        }
+    }
+    texts
+}
+
+fn parser_probe_op(t: &String) -> String {
+    match Filter::try_from(t.as_str()) {
+        Ok(f) => format!("ok {} | {}", tree_key(&f), f),
+        Err(e) => format!("err {e}"),
+    }
+}
+
 pub fn run(tier: Tier) -> i32 {
     let mut run = Run::new("C08", tier, "model_checking");
     run.rule = "filter trees built from the public node structs: every leaf over literals of every admissible kind (strings with every escape class, numbers ± fraction / 1e21 / 1e-7 / units, dates, times with fraction, timestamps UTC and zoned (+/-, two-digit hour, half hour, zero offset), refs with and without display name incl. a quote, uris, symbols, booleans), paths of 1-4 segments incl. names that start with a keyword, not, ^symbol, *==, four relationship forms; every and/or/parens shape with <= 2 (thorough 3) leaves over a core. (1) Filter::to_string then Filter::try_from gives an equal tree (Debug rendering) and reprints identically; (2) every spelling of the reference printer with <= 2 deviations (required white space: one space / two / newline / tab; optional white space around operators, parens and ->: default / toggled / newline / two spaces) parses to the same tree. (3) long chains: n flat parenthesised groups, n leaves, n and-in-or terms, nesting n deep, for every n 1..72, 100, 120, 126..130, 255..257, 1000; (4) flat chains of 5 000 / 20 000 / 100 000 (thorough 300 000) operands in five shapes, each printed, parsed and reprinted in a child process on a 2 MiB stack (crash / hang = exit status / 30 s watchdog). (5) history independence of the parser over ~330 texts (well-formed ones and every proper prefix of six multi-segment filters: errors at every position): all ordered pairs, and every third failing text 300 times before each of the six. states = trees, transitions = spellings parsed".into();
     run.assume("an 'equal filter' compares Refs by id (libhaystack's and Haystack's Ref equality): display names of Refs are not compared");
     run.assume("filter grammar of DESIGN Appendix A.3; literal syntax = Zinc scalar syntax; tag names exclude the reserved words");
     crate::engine::quiet_panics();
+    if super::common::probe_first(&mut run, "filter-parser", &parser_probe_pool(), &parser_probe_op, &|t: &String| json!(t)) {
+        return run.finish(&replay);
+    }
     let all = leaves();
     let l = par_for(all.len(), |i, local| check_tree(&all[i], 3, local));
     run.absorb(l);
@@ -529,6 +553,9 @@ pub fn child(tier: Tier, job: String, start: u64, end: u64, ctx: &mut crate::eng
 }
 
 pub fn replay(case: &J) -> Verdict {
+    if case["free_running"] == "filter-parser" {
+        return super::common::replay_probe(&parser_probe_pool(), &parser_probe_op, &|t: &String| json!(t));
+    }
     if case["history_pair"].is_string() || case["history_repeats"].is_string() {
         let op = |t: &String| -> String {
             match Filter::try_from(t.as_str()) {
